@@ -51,6 +51,21 @@ CLAIMS = {
             "history of the model is dumped by TLC, replayed on the real VbsWriter with boundary record lengths, and "
             "the recorded ops + file bytes + read-back are decided by TLC.",
             TB + "Model record lengths are mapped to real boundary lengths (harness/c11.py LENMAP).", "3 C11"),
+    'C01': ("TLA+ spec (Iso8583/Pds/Bytes) model-checked by TLC over the power set of an element universe; recorded "
+            "dumps->loads executions trace-validated by TLC (Trace_Iso, round-trip clauses)",
+            "TLC exhaustively checks that the specification's Layout and Reading agree (round trip, representability, "
+            "predicted length) over elements x candidate values x {binary,hex} x 3 codecs with the configuration "
+            "exported from the working tree; every recorded dumps->loads execution of the real code (length sweep of "
+            "every variable element, random well-formed messages over packaged and generated configurations, codecs, "
+            "both bitmaps) is decided by TLC: layout bytes, reading, and Expected(m) come back.",
+            TB + "Python codec tables, strftime/strptime on plain digits (DESIGN appendix A).", "3 C01"),
+    'C02': ("TLA+ reference codec (Iso8583.tla, written from the documentation) evaluated by TLC on recorded dumps/loads "
+            "calls, byte-for-byte and key-for-key; spec self-consistency model-checked (MC_Iso)",
+            "Every single element and (quick: 1600 sampled, thorough: all 8001) pairs of elements of a generated "
+            "127-element configuration, the over-length family on every variable element, short fixed values (padding) and "
+            "derived entries are encoded/decoded by the real code; TLC compares the bytes with Layout(m) and the result "
+            "with Reading(b), and demands refusal of over-length values.",
+            TB + "Python codec tables.", "3 C02"),
 }
 
 PENDING = "check not built yet in this round (specification under construction; see DESIGN.md section 3)"
